@@ -681,7 +681,7 @@ func ScanWALDirectory(dataDir string) (*WALSummary, error) {
 	var walFiles []string
 	for _, e := range entries {
 		name := e.Name()
-		if !e.IsDir() && isWALSegmentName(name) {
+		if e.Type().IsRegular() && isWALSegmentName(name) {
 			walFiles = append(walFiles, name)
 		}
 	}
@@ -799,7 +799,7 @@ func GetRecentWALRecords(dataDir string, limit int) ([]WALRecord, error) {
 	var walFiles []string
 	for _, e := range entries {
 		name := e.Name()
-		if !e.IsDir() && isWALSegmentName(name) {
+		if e.Type().IsRegular() && isWALSegmentName(name) {
 			walFiles = append(walFiles, name)
 		}
 	}
